@@ -323,7 +323,7 @@ func (v *Verifier) VerifyFunc(key string, c *Contract, class map[string]string) 
 				vars[genericResultName(i, len(names))] = r
 			}
 		}
-		se := &SpecEnv{e: e, st: st, old: e.entry, fr: e.rootFr, vars: vars, env: env, pkg: c.Pkg}
+		se := &SpecEnv{e: e, st: st, old: e.oldOf(st), fr: e.rootFr, vars: vars, env: env, pkg: c.Pkg}
 		e.bindLets(c, se)
 		e.applyGhostSets(st, c, se)
 		e.assumeMapWF(st)
